@@ -73,6 +73,12 @@ def base_traces(versions, for_c19=False):
         "loom.b.1/proc.20/thread.21": {"meta": meta(21, 20, "b.1", cpus=[(0, 2)], req=("nodes",), rank=0, nranks=2, app=2),
                                        "events": evs([_x(0, 21), ("DR[", b""), ("DR]", b""), ("OHe", b""), ("OF[", b""), ("OF]", b"")], 102)},
     }
+    # T7: the Nanos6 trace again on a machine whose clock has a large origin (2^60 ns) and events 3 ns apart: every swap of two
+    # adjacent events is still a clock going backwards
+    big = []
+    for k, ev in enumerate(out["nanos6"]["loom.n0/proc.100/thread.101"]["events"]):
+        big.append((ev[0], 2 ** 60 + 3 * k, ev[2], ev[3]))
+    out["hugeclock"] = {"loom.n0/proc.100/thread.101": {"meta": out["nanos6"]["loom.n0/proc.100/thread.101"]["meta"], "events": big}}
     if for_c19:
         # T6 (C19 only): two looms with nOS-V tasks and the breakdown view enabled (emulated with -b)
         bd = {"nosv": {"can_breakdown": True}}
